@@ -33,6 +33,16 @@ def run_case(cs, ctx):
     mp = ['sm', 'hr', 'spa', 'spa'][cs % 4]
     v = ge.legal_vector(rng, mp=mp, max_n1=10, max_n2=10, max_n3=8)
     v['twopl'] = True
+    if cs % 97 == 5 and mp in ('hr', 'spa'):
+        # a second-side list with more than 1000 entries
+        v.update({'n1': rng.randint(1050, 1300), 'n2': 2, 'pmin': 1, 'pmax': 2, 'uq': 1400, 'numinst': 1,
+                  't2': rng.choice([None, 0.0, 0.3]), 't1': 0.0})
+        v.pop('lq', None)
+        if mp == 'spa':
+            v.update({'n3': rng.choice([1, 2]), 'luq': 1400})
+            v.pop('lt', None)
+            v.pop('llq', None)
+        ctx.cov('list_longer_than_1000')
     outdir = ge.fresh_outdir(ctx.workdir, 'c12')
     argv = ge.to_argv(v, outdir, rng)
     case = {'cs': cs, 'vector': v, 'argv': [a if a != outdir else '<outdir>' for a in argv]}
@@ -90,6 +100,8 @@ def floors(m, tier):
     need = 6000 if tier == 'quick' else 120000
     if c.get('files_checked', 0) < need:
         out.append('only %d files checked' % c.get('files_checked', 0))
+    if cov.get('list_longer_than_1000', 0) < 5:
+        out.append('only %d runs with a second-side list longer than 1000' % cov.get('list_longer_than_1000', 0))
     for k in ('type_sm', 'type_hr', 'type_spa', 'agent_ranked_by_nobody', 'student_ranks_several_projects_of_one_lecturer',
               'more_lecturers_than_projects'):
         if cov.get(k, 0) < 30:
